@@ -78,6 +78,106 @@ Definition ds_addr (o : ops) (u : nat -> N) (rw : row) (off : N) : N :=
 (** post-processing of FLAT load data *)
 Inductive ldkind := LdRaw | LdU8 | LdS8 | LdU16.
 
+(** IEEE-754 binary32 on bit patterns: what Go's float32 [<], [==], [>] compute
+    (NaN compares false with everything, -0 = +0) *)
+Definition f32_exp (x : N) : N := (x / 8388608) mod 256.
+Definition f32_frac (x : N) : N := x mod 8388608.
+Definition f32_sign (x : N) : bool := N.leb 2147483648 x.
+Definition f32_nan (x : N) : bool := N.eqb (f32_exp x) 255 && negb (N.eqb (f32_frac x) 0).
+Definition f32_key (x : N) : Z := if f32_sign x then (- Z.of_N (x - 2147483648))%Z else Z.of_N x.
+Definition f32_ord (a b : N) : bool := negb (f32_nan a) && negb (f32_nan b).
+Definition f32_lt (a b : N) : bool := f32_ord a b && Z.ltb (f32_key a) (f32_key b).
+Definition f32_eq (a b : N) : bool := f32_ord a b && Z.eqb (f32_key a) (f32_key b).
+Definition f32_le (a b : N) : bool := f32_ord a b && Z.leb (f32_key a) (f32_key b).
+
+(** the conditions exactly as the Go handlers spell them *)
+Inductive fcmp := FLt | FEq | FLe | FGt | FLg | FGe | FNge | FNlg | FNgt | FNle | FNeq | FNlt.
+Definition fcmp_eval (c : fcmp) (a b : N) : bool :=
+  match c with
+  | FLt => f32_lt a b | FEq => f32_eq a b | FLe => f32_le a b
+  | FGt => f32_lt b a | FLg => f32_lt a b || f32_lt b a | FGe => f32_le b a
+  | FNge => negb (f32_le b a) | FNlg => negb (f32_lt a b || f32_lt b a)
+  | FNgt => negb (f32_lt b a) | FNle => negb (f32_le a b)
+  | FNeq => negb (f32_eq a b) | FNlt => negb (f32_lt a b)
+  end.
+
+(** applyF32Modifier on uint32(val): abs goes through float64 (math.Abs), which
+    clears the sign and quiets a signalling NaN; neg flips the sign bit *)
+Definition f32_mod (ab ng idx x : N) : N :=
+  let x := x mod B32 in
+  let x := if N.testbit ab idx
+           then (let y := x mod 2147483648 in if f32_nan y then N.lor y 4194304 else y) else x in
+  if N.testbit ng idx then (if f32_sign x then x - 2147483648 else x + 2147483648) else x.
+
+(** class number 0..9 of v_cmp_class_f32 *)
+Definition f32_class (q : bool) (x : N) : N :=
+  let s := f32_sign x in let e := f32_exp x in let f := f32_frac x in
+  if f32_nan x then (if q || N.testbit f 22 then 1 else 0)
+  else if N.eqb e 255 then (if s then 2 else 9)
+  else if N.eqb e 0 then (if N.eqb f 0 then (if s then 5 else 6) else (if s then 4 else 7))
+  else (if s then 3 else 8).
+
+(** unsigned integer -> IEEE float with [mb] fraction bits and exponent bias
+    [bias], rounded to nearest even (what CVTSI2SS / CVTSI2SD do; exact when the
+    magnitude has at most mb+1 significant bits); a carry out of the fraction
+    increments the exponent by plain addition *)
+Definition int2f (mb bias m : N) : N :=
+  if N.eqb m 0 then 0 else
+  let e := N.log2 m in
+  if N.leb e mb then (e + bias) * 2 ^ mb + (m * 2 ^ (mb - e) - 2 ^ mb)
+  else let sh := e - mb in
+       let q := m / 2 ^ sh in let r := m mod 2 ^ sh in let half := 2 ^ (sh - 1) in
+       let q' := if N.ltb half r || (N.eqb r half && N.odd q) then q + 1 else q in
+       (e + bias) * 2 ^ mb + (q' - 2 ^ mb).
+(** the same for int32(x): sign bit [sb] and the magnitude *)
+Definition sint2f (mb bias sb x32 : N) : N :=
+  if N.leb 2147483648 x32 then sb + int2f mb bias (B32 - x32) else int2f mb bias x32.
+
+(** math.Min / math.Max through float64 and back: the infinity that decides is
+    tested before the NaN test, every NaN result is the default quiet NaN, of two
+    zeros the negative (Min) / positive (Max) one wins *)
+Definition f32_zero (x : N) : bool := N.eqb (x mod 2147483648) 0.
+Definition go_fmin32 (a b : N) : N :=
+  if N.eqb a 4286578688 || N.eqb b 4286578688 then 4286578688
+  else if f32_nan a || f32_nan b then 2143289344
+  else if f32_zero a && f32_zero b then N.lor a b
+  else if f32_lt a b then a else b.
+Definition go_fmax32 (a b : N) : N :=
+  if N.eqb a 2139095040 || N.eqb b 2139095040 then 2139095040
+  else if f32_nan a || f32_nan b then 2143289344
+  else if f32_zero a && f32_zero b then N.land a b
+  else if f32_lt b a then a else b.
+(** float32(math.Trunc(float64(x))): a NaN comes back quieted, |x| < 1 gives the
+    signed zero, otherwise the fraction bits below the binary point are cleared *)
+Definition go_ftrunc32 (x : N) : N :=
+  let e := f32_exp x in
+  if f32_nan x then N.lor x 4194304
+  else if N.eqb e 255 then x
+  else if N.ltb e 127 then (if f32_sign x then 2147483648 else 0)
+  else if N.leb 150 e then x
+  else let k := 150 - e in (x / 2 ^ k) * 2 ^ k.
+
+(** float32 -> float64 -> float32 round trip of a value that is only moved: a
+    signalling NaN comes back quiet *)
+Definition f32_quiet (x : N) : N := if f32_nan x then N.lor x 4194304 else x.
+(** the order of slices.Sort on floats: x < y, or x is a NaN and y is not *)
+Definition sort_less (x y : N) : bool := f32_lt x y || (f32_nan x && negb (f32_nan y)).
+(** insertion sort of three elements as slices.Sort runs it (n <= 12), element 1 *)
+Definition go_fmed3 (a b c : N) : N :=
+  let a := f32_quiet a in let b := f32_quiet b in let c := f32_quiet c in
+  let p := if sort_less b a then b else a in
+  let q := if sort_less b a then a else b in
+  if sort_less c q then (if sort_less c p then p else c) else q.
+(** float64(float32): exact; denormals are normalised, a NaN keeps its payload
+    in the top fraction bits and becomes quiet *)
+Definition go_f64_of_f32 (x : N) : N :=
+  let s := if f32_sign x then 9223372036854775808 else 0 in
+  let e := f32_exp x in let f := f32_frac x in
+  if N.eqb e 255 then s + 2047 * 4503599627370496 + f * 536870912 + (if N.eqb f 0 then 0 else N.land (N.lnot (f * 536870912) 52) 2251799813685248)
+  else if N.eqb e 0 then
+    (if N.eqb f 0 then s else let l := N.log2 f in s + (l + 874) * 4503599627370496 + (f * 2 ^ (52 - l) - 4503599627370496))
+  else s + (e + 896) * 4503599627370496 + f * 536870912.
+
 Inductive hid :=
 (* own transcriptions of integer ALU handlers (after the C03 fixes on main the
    GCN3 and CDNA3 variants of these agree, except where two ids are given) *)
@@ -86,6 +186,25 @@ Inductive hid :=
 | H_cmp_lt_u32 | H_cmp_eq_u32 | H_cmp_lt_u32_e64 | H_cmp_eq_u32_e64
 | H_mad_u64_u32 | H_add3 | H_add_co_e64 | H_addc_e64
 | H_lshlrev_b16 | H_add_u16 | H_cmp_gt_i16
+(* float handlers expressed on bit patterns (second round): the 12 f32 compares of
+   VOPC and their VOP3a forms ([ab]/[ng] = the abs / neg fields of the VOP3a
+   word, 0 for VOPC; [e64] = the mask goes to the SGPR pair / VCC named by Dst),
+   v_cmp_class_f32 ([q] = every NaN counts as quiet: the CDNA3 VOPC form) and
+   the GCN3 v_min_f32 / v_max_f32 (compare and select, no arithmetic) *)
+| H_fcmp (c : fcmp) (ab ng : N) (e64 : bool)
+| H_fclass (q : bool) (ab ng : N) (e64 : bool)
+| H_fmin_gcn3 | H_fmax_gcn3
+(* v_min3_f32 / v_max3_f32 of both ALUs (compare and select with abs / neg) and
+   the integer -> float conversions (one IEEE rounding to nearest even):
+   v_cvt_f32_i32, v_cvt_f32_u32, v_cvt_f32_ubyte0, v_cvt_f64_i32, v_cvt_f64_u32 *)
+| H_fmin3 (ab ng : N) | H_fmax3 (ab ng : N)
+| H_cvt_f32_i32 | H_cvt_f32_u32 | H_cvt_f32_ubyte0 | H_cvt_f64_i32 | H_cvt_f64_u32
+(* CDNA3 v_min_f32 / v_max_f32 (math.Min / math.Max on the float64 images) and
+   v_trunc_f32 of both ALUs (math.Trunc on the float64 image) *)
+| H_fmin_cdna3 | H_fmax_cdna3 | H_ftrunc
+(* v_med3_f32 of both ALUs (sort.Float64s of the three float64 images, element 1)
+   and v_cvt_f64_f32 of both ALUs (exact widening, 64-bit destination) *)
+| H_fmed3 (ab ng : N) | H_cvt_f64_f32
 (* any row of the C03 builder's table ExecImplV.vdesc_of, used through [desc] *)
 | H_v (a : IsaState.arch) (f : IsaState.format) (op : Z)
 (* memory and LDS handlers; [n] = bytes moved, [w] = element width of the "2" forms *)
@@ -120,6 +239,26 @@ Definition alu_core (h : hid) (a b c : N) (mb : bool) : option N * option bool :
   | H_add_u16 => (Some ((a mod 65536 + b mod 65536) mod 65536), None)
   | H_cmp_gt_i16 =>  (* int16(a) > int16(b): compare after flipping the sign bit *)
       (None, Some (N.ltb ((b mod 65536 + 32768) mod 65536) ((a mod 65536 + 32768) mod 65536)))
+  | H_fcmp c ab ng _ => (None, Some (fcmp_eval c (f32_mod ab ng 0 a) (f32_mod ab ng 1 b)))
+  | H_fclass q ab ng _ => (None, Some (N.testbit b32 (f32_class q (f32_mod ab ng 0 a))))
+  | H_fmin3 ab ng =>
+      let x := f32_mod ab ng 0 a in let y := f32_mod ab ng 1 b in let z := f32_mod ab ng 2 c in
+      let d := if f32_lt y x then y else x in (Some (if f32_lt z d then z else d), None)
+  | H_fmax3 ab ng =>
+      let x := f32_mod ab ng 0 a in let y := f32_mod ab ng 1 b in let z := f32_mod ab ng 2 c in
+      let d := if f32_lt x y then y else x in (Some (if f32_lt d z then z else d), None)
+  | H_cvt_f32_i32 => (Some (sint2f 23 127 2147483648 a32), None)
+  | H_cvt_f32_u32 => (Some (int2f 23 127 a32), None)
+  | H_cvt_f32_ubyte0 => (Some (int2f 23 127 (a mod 256)), None)
+  | H_cvt_f64_i32 => (Some (sint2f 52 1023 9223372036854775808 a32), None)
+  | H_cvt_f64_u32 => (Some (int2f 52 1023 a32), None)
+  | H_fmin_cdna3 => (Some (go_fmin32 a32 b32), None)
+  | H_fmax_cdna3 => (Some (go_fmax32 a32 b32), None)
+  | H_ftrunc => (Some (go_ftrunc32 a32), None)
+  | H_fmed3 ab ng => (Some (go_fmed3 (f32_mod ab ng 0 a) (f32_mod ab ng 1 b) (f32_mod ab ng 2 c)), None)
+  | H_cvt_f64_f32 => (Some (go_f64_of_f32 a32), None)
+  | H_fmin_gcn3 => (Some (if f32_lt b32 a32 then b32 else a32), None)
+  | H_fmax_gcn3 => (Some (if f32_lt a32 b32 then b32 else a32), None)
   | _ => (None, None)
   end.
 
@@ -201,6 +340,7 @@ Definition hdst (h : hid) (o : ops) : mdst :=
   match h with
   | H_add_co | H_sub_co_gcn3 | H_addc | H_cmp_lt_u32 | H_cmp_eq_u32 | H_cmp_gt_i16 => DVcc
   | H_cmp_lt_u32_e64 | H_cmp_eq_u32_e64 => mdst_of (o_dst o)
+  | H_fcmp _ _ _ e64 | H_fclass _ _ _ e64 => if e64 then mdst_of (o_dst o) else DVcc
   | H_add_co_e64 | H_addc_e64 => mdst_of (o_sdst o)
   | H_v a f op =>
       match ExecImplV.vdesc_of a f op with
